@@ -254,8 +254,10 @@ def run(c):
             if f:
                 fail = f"after {done}: {f}"
     coq = None
-    if r is None or fail:
-        pass        # (after an oracle failure the object may not even be expressible as a model term)
+    import json as _json
+    if r is None or fail or "__alias__" in _json.dumps(c.get("recipe", "")):
+        pass        # (after an oracle failure the object may not even be expressible as a model term; one node OBJECT under two
+                    #  names is not expressible in the immutable model either — inference mutates both at once — oracle only)
     elif c["hist"] and all(o == "infer" for o in c["hist"]) and len(c["hist"]) <= 2 and done == c["hist"]:
         try:
             coq = cinfer_frame(r, ("ok", g, raised_last, None), twice=len(c["hist"]) == 2, raised_any=raised_any)
